@@ -22,7 +22,8 @@ RULE = ("exhaustive: one record of every length 1..L at every line width 1..W (q
         "only after all fetches are done; sessions of 2..8 calls on ONE open IndexedFasta (interval fetches whose first interval "
         "starts exactly where the previous read stopped, whole-contig fetches, items()/values(), repeats), every result checked "
         "right after its call and again after all later calls; every kind of case also on the FASTA without its final newline "
-        "(exhaustive block: last line exactly full or short x every interval x both paths); the FASTA at one path replaced "
+        "(exhaustive block: last line exactly full or short x every interval x both paths); blank-line-separated records (1..3 empty "
+        "lines after a record, last line short / full / single, also after the last record) for every kind of case; the FASTA at one path replaced "
         "(same size in bytes / other size) with its .fai removed and opened again in the same process, first object still alive. Non-trivial = an interval touching or crossing a line break, W = 1, a short last line, "
         ">= 2 records or a description")
 EXHAUSTIVE = {"quick": True, "thorough": True}
@@ -300,7 +301,8 @@ def wrap(seq, w):
 
 
 def file_text(recs):
-    return "".join(">" + r["h"] + "\n" + wrap(r["seq"], r["w"]) for r in recs)
+    """records, each optionally followed by `blank` empty lines (blank-line-separated FASTA)"""
+    return "".join(">" + r["h"] + "\n" + wrap(r["seq"], r["w"]) + "\n" * r.get("blank", 0) for r in recs)
 
 
 def name_of(r):
@@ -313,7 +315,7 @@ def true_index(recs):
         off += len(r["h"]) + 2
         lenc = min(r["w"], len(r["seq"]))
         rows.append([name_of(r), len(r["seq"]), off, lenc, lenc + 1])
-        off += len(wrap(r["seq"], r["w"]))
+        off += len(wrap(r["seq"], r["w"])) + r.get("blank", 0)
     return rows
 
 
@@ -355,6 +357,10 @@ def cases(tier, rng):
         yield c
         if c["op"] in ("fetch", "contig", "index", "session", "genome") and rng.random() < 0.3:
             yield dict(c, no_final_newline=True)
+        # blank-line-separated records (1..3 empty lines after some records, also after the last one)
+        if c["op"] in ("fetch", "contig", "index", "session", "genome", "index_chunked", "create_index") and rng.random() < 0.3 \
+                and "no_final_newline" not in c:
+            yield dict(c, recs=[dict(r, blank=rng.choice([0, 1, 1, 2, 3])) for r in c["recs"]])
 
 
 def _cases(tier, rng):
@@ -381,6 +387,17 @@ def _cases(tier, rng):
                        "no_final_newline": True}
             yield {"op": "contig", "recs": recs, "supplied": False, "no_final_newline": True}
             yield {"op": "index", "recs": recs, "no_final_newline": True}
+    # 1c. blank lines after a record x last line short / full / single line x every width, whole contigs and index rows
+    for n in range(1, (L if big else 6) + 1):
+        for w in range(1, n + 2):
+            recs = [{"h": "a d", "seq": _seq(rng, n), "w": w, "blank": rng.choice([1, 1, 2, 3])},
+                    {"h": "b", "seq": _seq(rng, rng.randint(1, 6)), "w": rng.randint(1, 4), "blank": rng.choice([0, 0, 1, 2])}]
+            yield {"op": "index", "recs": recs}
+            yield {"op": "contig", "recs": recs, "supplied": False}
+            yield {"op": "fetch", "recs": recs, "ivs": _all_intervals("a", n)[-min(6, n * (n + 1) // 2):] + _all_intervals("b", len(recs[1]["seq"]))[:3],
+                   "supplied": False, "string": rng.random() < 0.5}
+            if rng.random() < 0.3:
+                yield {"op": "genome", "recs": recs, "sort_names": False}
     # 2. the record of interest preceded / followed by other records (offsets), descriptions
     for n in range(1, L + 1):
         for w in range(1, W + 1):
@@ -792,7 +809,7 @@ def oracle(c):
             off += len(r["h"]) + 2
             lenc = min(r["w"], len(r["seq"]))
             rows.append([_name_before_ws(r["h"]), len(r["seq"]), off, lenc, lenc + 1])
-            off += len(wrap(r["seq"], r["w"]))
+            off += len(wrap(r["seq"], r["w"])) + r.get("blank", 0)
         return {"rows": rows}
     if not in_domain(recs):
         return SKIP
